@@ -830,3 +830,87 @@ Proof.
   rewrite run_snoc in H. destruct (run T ops f) as [ok a| |]; try discriminate. cbn [step] in H.
   exact (file_create_idem a f' H).
 Qed.
+
+(* ------------------------------------------------------------------ ascending trace numbers *)
+
+(* strictly ascending and above [lo] *)
+Fixpoint asc (lo : Z) (l : list Z) : Prop :=
+  match l with [] => True | x :: r => lo < x /\ asc x r end.
+
+Fixpoint lastz (lo : Z) (l : list Z) : Z := match l with [] => lo | x :: r => lastz x r end.
+
+Lemma asc_weaken l : forall lo lo', lo' <= lo -> asc lo l -> asc lo' l.
+Proof. destruct l as [|x r]; intros lo lo' Hle H; cbn in *; [exact I|]. destruct H. split; [lia|assumption]. Qed.
+
+Lemma asc_filter (f : entry -> bool) es : forall lo, asc lo (map e_trace es) -> asc lo (map e_trace (filter f es)).
+Proof.
+  induction es as [|e es IH]; intros lo H; cbn [filter map asc] in *; [exact I|].
+  destruct H as [H1 H2]. destruct (f e); cbn [map asc].
+  - split; [assumption|now apply IH].
+  - apply IH. eapply asc_weaken; [|exact H2]. lia.
+Qed.
+
+Lemma asc_app a : forall lo b, asc lo a -> asc (lastz lo a) b -> asc lo (a ++ b).
+Proof.
+  induction a as [|x a IH]; intros lo b Ha Hb; cbn [app asc lastz] in *; [assumption|].
+  destruct Ha as [H1 H2]. split; [assumption|now apply IH].
+Qed.
+
+Lemma lastz_app a x : forall lo, lastz lo (a ++ [x]) = x.
+Proof. induction a as [|y a IH]; intros lo; cbn [app lastz]; [reflexivity|apply IH]. Qed.
+
+Lemma last_trace_lastz es : last_trace es = lastz 0 (map e_trace es).
+Proof.
+  unfold last_trace. induction es as [|e es IH] using rev_ind; [reflexivity|].
+  rewrite rev_app_distr, map_app. cbn [rev app map]. now rewrite lastz_app.
+Qed.
+
+Definition all_absent (odfi : Z) (es : list entry) : bool := forallb (fun e => negb (has_prefix odfi e)) es.
+
+Lemma retrace_asc odfi es : forall s lo, all_absent odfi es = true ->
+  0 <= s -> s + Z.of_nat (length es) <= P7 -> lo < odfi * P7 + s ->
+  asc lo (map e_trace (retrace odfi s es)).
+Proof.
+  induction es as [|e es IH]; intros s lo Ha Hs Hlen Hlo; cbn [retrace map asc]; [exact I|].
+  cbn [all_absent forallb] in Ha. apply andb_prop in Ha as [He Ha]. unfold has_prefix in He.
+  destruct (trace_odfi (e_trace e) =? odfi); [discriminate|]. cbn [set_trace e_trace].
+  cbn [length] in Hlen. rewrite Z.mod_small by lia. split; [assumption|].
+  apply IH; try assumption; lia.
+Qed.
+
+(* a batch without any pre-set trace number comes out of a successful build with strictly
+   ascending (positive) trace numbers, the offsets included *)
+Lemma build_ascending T b b' : table_good T -> 0 <= b_odfi b ->
+  (b_off b <> None -> wf_entries T (b_entries b) = true) ->
+  all_absent (b_odfi b) (b_entries b) = true -> Z.of_nat (length (b_entries b)) < P7 - 1 ->
+  build T b = Ret true b' -> asc 0 (map e_trace (b_entries b')).
+Proof.
+  intros G Ho Hwf Ha Hlen H. destruct (build_ok_inv T b b' G H) as (Hh & He & Hoff).
+  assert (Hasc : asc 0 (map e_trace (retrace (b_odfi b) 1 (b_entries b)))).
+  { apply retrace_asc; try assumption; unfold P7 in *; lia. }
+  destruct (b_off b) as [o|] eqn:Eo.
+  - destruct Hoff as (Hr & Hk).
+    rewrite (build_offset T b o G Hh He Eo Hr Hk (Hwf ltac:(discriminate))) in H. injection H as <-.
+    rewrite offset_result_entries, map_app. apply asc_app.
+    + unfold body. now apply asc_filter.
+    + rewrite <- last_trace_lastz. unfold new_offsets.
+      destruct (credits T (body b) =? 0); destruct (debits T (body b) =? 0); cbn [app map asc e_trace]; repeat split; lia.
+  - subst b'. exact Hasc.
+Qed.
+
+(* ------------------------------------------------------------------ File.Create tabulates *)
+
+Lemma renumber_entries bs : forall s, map b_entries (renumber s bs) = map b_entries bs.
+Proof.
+  induction bs as [|b bs IH]; intros s; cbn [renumber map]; [reflexivity|].
+  rewrite IH. f_equal. destruct (b_num b <=? 1); reflexivity.
+Qed.
+
+Lemma file_create_tabulates f f' : file_create f = Ret true f' ->
+  f_ctl f' = file_control (f_batches f') /\ map b_entries (f_batches f') = map b_entries (f_batches f) /\
+  fc_batches (f_ctl f') = Z.of_nat (length (f_batches f)).
+Proof.
+  unfold file_create. destruct (f_hdr_ok f); cbn [negb]; [|discriminate].
+  destruct (f_batches f) as [|b bs] eqn:E; [discriminate|]. rewrite <- E. intros H. injection H as <-.
+  cbn [f_ctl f_batches file_control fc_batches]. rewrite renumber_entries, renumber_length. auto.
+Qed.
